@@ -61,6 +61,12 @@ def install_seams() -> None:
                 if env is not None:
                     env.log("state" if k == "connection_state" else "is_connected", conn=self._vf_id, value=v)
 
+        def _add_message_callback_without_remove(self, on_message, msg_types):
+            env = CURRENT
+            if env is not None and env.log_subscriptions:
+                env.log("subscribe", conn=self._vf_id, types=[getattr(t, "__name__", repr(t)) for t in msg_types])
+            return super()._add_message_callback_without_remove(on_message, msg_types)
+
         def process_packet(self, msg_type_proto, data):
             env = CURRENT
             if env is not None:
@@ -516,6 +522,7 @@ class Env:
         self.results: dict[str, tuple] = {}
         self.cancelled_by_harness: set[str] = set()
         self.create_connection_yields = 0
+        self.log_subscriptions = False
 
     # ------------------------------------------------------------ trace
     def log(self, kind: str, **kw) -> int:
